@@ -330,6 +330,9 @@ impl CountUnique {
         if let Some(col) = columns.get(&self.field) {
             if let Some(s) = col.get_str_at(row_idx) {
                 self.uniq.insert(s.to_string());
+            } else if let Some(v) = col.get_i64_at(row_idx) {
+                // typed i64 column: no string view; use the decimal text like update_from_event does
+                self.uniq.insert(v.to_string());
             } else {
                 // Missing value in column: treat as empty string (consistent with update_from_event)
                 self.uniq.insert(String::new());
